@@ -272,4 +272,22 @@ CHECKS = {
         "quick": [T("TestC03", 8, 150, steps=30)],
         "thorough": [T("TestC03", 16, 5000, steps=30, timeout=3000)],
     },
+    "C17": {
+        "level": "exploration",
+        "rule": ("complete sweep per case: every exported method of every registered built-in contract (obtained by reflection "
+                 "from the executor's contract registry, 236 methods) x 5 caller roles (outsider, admin of another appchain, "
+                 "admin of the target appchain, governance admin, node account), audit on/off drawn per case, one drawn well-typed "
+                 "argument vector per call from pools of meaningful ids (existing chains, services, full service ids, IBTP ids, "
+                 "proposal ids, addresses, status/event/role names, marshalled IBTPs, JSON blobs; object-management callbacks get "
+                 "event/result/payload combinations), each call in its own block on a world with interchain traffic and an open "
+                 "proposal. Oracle: table (data in the harness) of contract-to-contract entry points, governance-admin-only and "
+                 "chain-admin-only operations => FAILED receipt and raw dump unchanged except caller/admin accounts for every "
+                 "caller outside the designated set; for every call of every method: existing interchain counters, index records "
+                 "and transaction-manager records byte-identical before/after. Non-trivial = calls that passed argument parsing; "
+                 "distinct = set of (method, role) labels that reached contract code. exhaustive over method x role per case."),
+        "assumptions": ["methods not in the table are treated as public; they are only subject to the third-party-records invariant",
+                        "argument vectors are sampled (one per method x role x case), the method x role product is complete"],
+        "quick": [T("TestC17", 8, 3, steps=30)],
+        "thorough": [T("TestC17", 16, 60, steps=30, timeout=3000)],
+    },
 }
